@@ -1112,3 +1112,157 @@ def analyse_render_deps(cls, exempt=None):
             d += "; EXEMPT: " + "; ".join(f"{ek} ({exempt[ek]})" for _v, ek in waived)
         results.append((key, True, d))
     return results, groups
+
+
+# =============================================================================================
+# Finalized canvases refuse mutation (C06, third family of static obligations)
+# =============================================================================================
+"""
+For a canvas class (urwid/canvas.py), every method other than __init__: each statement that WRITES the canvas
+(assignment / augmented assignment / del of `self.X` or `self.X[...]`, an in-place container method on `self.X`, a
+call of another `self.` method that itself writes without being guarded) is reached, on every path, only after the
+guard
+        if self.widget_info [and self.cacheable]:
+            raise self._finalized_error
+has been passed — so on a finalized (cacheable) canvas the method raises before it changes anything:
+"canvases handed out by the cache are never modified afterwards". `Canvas.finalize` itself has the guard, hence
+"finalize twice raises". Path enumeration as above (value-insensitive).
+"""
+
+INPLACE = ("append", "extend", "insert", "pop", "remove", "clear", "update", "sort", "reverse", "setdefault", "popitem", "__setitem__", "__delitem__")
+
+
+def _is_guard(node, me):
+    if not isinstance(node, ast.If) or node.orelse:
+        return False
+    names = {n.attr for n in ast.walk(node.test) if isinstance(n, ast.Attribute) and isinstance(n.value, ast.Name) and n.value.id == me}
+    if "widget_info" not in names or not names <= {"widget_info", "cacheable"}:
+        return False
+    if any(isinstance(n, (ast.Not, ast.Or)) for n in ast.walk(node.test)):
+        return False
+    last = node.body[-1] if node.body else None
+    return isinstance(last, ast.Raise) and last.exc is not None and "_finalized_error" in ast.unparse(last.exc) and len(node.body) == 1
+
+
+def analyse_finalized_guard(cls):
+    """-> [(label, ok, detail)] one obligation per method of `cls`'s own body that writes the canvas."""
+    info = ClassInfo(cls)
+    m = SRC.module_of_real(cls.__module__)
+    cnode = SRC.find_class(m, cls.__qualname__)
+    own = [fn for fn in SRC._class_body_defs(cnode.body) if not SRC._is_overload(fn)]
+    memo: dict = {}
+
+    def unguarded_writes(ref, depth=0):
+        """list of (line, what) of writes reachable without having passed the guard"""
+        if ref.key in memo:
+            return memo[ref.key]
+        memo[ref.key] = []  # recursion guard
+        me = _self_name(ref.node)
+        found = []
+
+        def writes_in_expr(e):
+            out = []
+            for n in ast.walk(e):
+                if isinstance(n, ast.Call) and isinstance(n.func, ast.Attribute):
+                    f = n.func
+                    if f.attr in INPLACE and any(isinstance(x, ast.Name) and x.id == me for x in ast.walk(f.value)) and not (isinstance(f.value, ast.Name)):
+                        out.append((n.lineno, f"in-place {ast.unparse(f)[:40]}"))
+                    elif isinstance(f.value, ast.Name) and f.value.id == me:
+                        callee = info.method(f.attr) or info.methods.get((f.attr, "setter"))
+                        if callee is not None and depth < 6:
+                            sub = unguarded_writes(callee, depth + 1)
+                            if sub:
+                                out.append((n.lineno, f"calls self.{f.attr}() which writes unguarded at line {sub[0][0]}"))
+            return out
+
+        def target_writes(t):
+            if isinstance(t, (ast.Tuple, ast.List)):
+                return [w for e in t.elts for w in target_writes(e)]
+            base = t
+            while isinstance(base, ast.Subscript):
+                base = base.value
+            if isinstance(base, ast.Attribute) and any(isinstance(x, ast.Name) and x.id == me for x in ast.walk(base)):
+                if isinstance(t, ast.Attribute) and (t.attr, "setter") in info.methods:
+                    sub = unguarded_writes(info.methods[(t.attr, "setter")], depth + 1) if depth < 6 else []
+                    return [(t.lineno, f"sets property {t.attr} whose setter writes unguarded")] if sub else []
+                return [(t.lineno, f"writes {ast.unparse(t)[:40]}")]
+            return []
+
+        def run(stmts, guarded):
+            """guarded: set of booleans possible at this point; returns the set after (empty = no fall-through)"""
+            for s in stmts:
+                if not guarded:
+                    return guarded
+                if _is_guard(s, me):
+                    guarded = {True}
+                    continue
+                ws = []
+                if isinstance(s, (ast.Assign, ast.AugAssign, ast.AnnAssign)):
+                    if getattr(s, "value", None) is not None:
+                        ws += writes_in_expr(s.value)
+                    for t in (s.targets if isinstance(s, ast.Assign) else [s.target]):
+                        ws += target_writes(t)
+                elif isinstance(s, ast.Delete):
+                    for t in s.targets:
+                        ws += target_writes(t)
+                elif isinstance(s, (ast.Expr, ast.Return)):
+                    if s.value is not None:
+                        ws += writes_in_expr(s.value)
+                elif isinstance(s, ast.If):
+                    ws += writes_in_expr(s.test)
+                elif isinstance(s, (ast.For, ast.While)):
+                    ws += writes_in_expr(s.iter if isinstance(s, ast.For) else s.test)
+                elif isinstance(s, ast.With):
+                    for it in s.items:
+                        ws += writes_in_expr(it.context_expr)
+                if ws and False in guarded:
+                    found.extend(ws)
+                if isinstance(s, (ast.Return, ast.Raise)):
+                    return set()
+                if isinstance(s, ast.If):
+                    guarded = run(s.body, set(guarded)) | run(s.orelse, set(guarded))
+                elif isinstance(s, (ast.For, ast.While)):
+                    guarded = guarded | run(s.body, set(guarded)) | run(s.orelse, set(guarded))
+                elif isinstance(s, ast.With):
+                    guarded = run(s.body, set(guarded))
+                elif isinstance(s, ast.Try):
+                    a = run(s.body, set(guarded))
+                    out = set(a)
+                    for h in s.handlers:
+                        out |= run(h.body, set(guarded) | a)
+                    out |= run(s.orelse, set(a)) if s.orelse else set()
+                    guarded = run(s.finalbody, out) if s.finalbody else out
+            return guarded
+
+        run(ref.node.body, {False})
+        memo[ref.key] = sorted(set(found))
+        return memo[ref.key]
+
+    def writes_anything(fn):
+        me = _self_name(fn)
+        for n in ast.walk(fn):
+            if isinstance(n, (ast.Assign, ast.AugAssign, ast.AnnAssign, ast.Delete)):
+                for t in (n.targets if isinstance(n, (ast.Assign, ast.Delete)) else [n.target]):
+                    b = t
+                    while isinstance(b, ast.Subscript):
+                        b = b.value
+                    if isinstance(b, ast.Attribute) and any(isinstance(x, ast.Name) and x.id == me for x in ast.walk(b)):
+                        return True
+            if isinstance(n, ast.Call) and isinstance(n.func, ast.Attribute) and (n.func.attr in INPLACE or (isinstance(n.func.value, ast.Name) and n.func.value.id == me)):
+                if any(isinstance(x, ast.Name) and x.id == me for x in ast.walk(n.func.value)):
+                    return True
+        return False
+
+    results = []
+    for fn in own:
+        if fn.name.startswith("_") or any(ast.unparse(d) in ("staticmethod", "classmethod") for d in fn.decorator_list):
+            continue  # private helpers have no obligation of their own: a call to one counts as a write at the call site
+        if not fn.args.args or not writes_anything(fn):
+            continue
+        decs = [ast.unparse(d) for d in fn.decorator_list]
+        role = "setter" if any(d == f"{fn.name}.setter" for d in decs) else ("getter" if any(d in ("property", "functools.cached_property") for d in decs) else "function")
+        ref = SRC.FnRef(m, fn, f"{cls.__qualname__}.{fn.name}", cls.__qualname__, role)
+        bad = unguarded_writes(ref)
+        label = f"{cls.__name__}.{fn.name}" + (".setter" if role == "setter" else "")
+        results.append((label, not bad, "; ".join(f"line {ln}: {what}" for ln, what in bad) if bad else "every write is behind the finalized guard"))
+    return results, []
